@@ -42,7 +42,8 @@ def classify(unit: dict[str, Any], call: dict[str, Any], ref: list[list[Any]], g
             # type is an accident of the unit, not part of the mechanism
             return (f"exc-type:{'*' if free else a[1]}->{b[1]}:{F.norm_msg(str(b[2]))}",
                     f"interpreted raises {a[1]}({a[2]!r}), compiled raises {b[1]}({b[2]!r})")
-        return (f"exc-message:{a[1]}:{F.norm_msg(str(a[2]))} => {F.norm_msg(str(b[2]))}",
+        # (keyed by the compiled wording only: CPython's wording usually embeds the offending value)
+        return (f"exc-message:{a[1]}:compiled says '{F.norm_msg(str(b[2]))}'",
                 f"same exception type {a[1]} but different message: {a[2]!r} vs {b[2]!r}")
     if a[0] in ("exc", "setup-exc") and b[0] != a[0]:
         return (f"missing-exception:{a[1]}:{F.norm_msg(str(a[2]))}:{kind}", f"interpreted raises {a[1]}({a[2]!r}), compiled yields {b[:2]}")
